@@ -73,9 +73,10 @@ Definition lstrip := lstrip_by is_bws.
 Definition rstrip := rstrip_by is_bws.
 Definition strip := strip_by is_bws.
 
-(* str.strip() on Latin-1 text: additionally FS GS RS US, NEL, NBSP *)
+(* whitespace int(str) skips on Latin-1 text: ASCII whitespace plus the non-ASCII spaces NEL and NBSP
+   (FS GS RS US count for str.strip() but not for int()) *)
 Definition is_uws_latin1 (c : byte) : bool :=
-  let n := bN c in is_bws c || ((28 <=? n) && (n <=? 31)) || (n =? 133) || (n =? 160).
+  let n := bN c in is_bws c || (n =? 133) || (n =? 160).
 
 Definition is_upper (c : byte) : bool := let n := bN c in (65 <=? n) && (n <=? 90).
 Definition is_lower (c : byte) : bool := let n := bN c in (97 <=? n) && (n <=? 122).
